@@ -333,10 +333,20 @@ class Interp:
         val = None
         if rv.k == "aggr" and rv.j.get("ak") == "adt":
             val = rv.j.get("variant")
+        elif rv.k == "aggr" and rv.j.get("ak") == "tuple":
+            # `let (result, what) = match .. { A => (self.f(), ".."), B => (self.g(), "..") };`: the components keep what is known of them
+            comps = tuple(L.get(o.place[0]) if (o.place is not None and not o.place[1]) else None for o in rv.ops)
+            if any(c is not None for c in comps):
+                val = ("tup", comps)
         elif rv.k == "use":
             o = rv.ops[0]
             if o.place is not None and not o.place[1]:
                 val = L.get(o.place[0])
+            elif o.place is not None and isinstance(L.get(o.place[0]), tuple) and L[o.place[0]][0] == "tup":
+                pj = o.place[1]
+                tv = L[o.place[0]][1]
+                if len(pj) == 1 and pj[0][0] == "f" and pj[0][1] < len(tv):
+                    val = tv[pj[0][1]]
             elif o.place is not None and isinstance(L.get(o.place[0]), tuple) and L[o.place[0]][0] == "opt":
                 pj = [e for e in o.place[1] if e[0] != "*"]
                 tv = L[o.place[0]]
